@@ -16,6 +16,11 @@
 (*              The logged input marks a silence that fell between the      *)
 (*              bytes of one scalar as GapInside: bytes had followed        *)
 (*              promptly, it decides nothing (ParserLifeInput).             *)
+(*   close      Close requested while the parser waits for input, then the  *)
+(*              reader returning: that stops it.  stopRets = calls of the   *)
+(*              reader that returned after Close until the channel was      *)
+(*              closed (-1 = not measured): one is enough, whatever that    *)
+(*              return delivered ("for all read chunkings").                *)
 (* A scenario whose schedule the code could not follow (drift) is skipped   *)
 (* and counted; it is a model-conformance matter, not a verdict.            *)
 EXTENDS ParserLifeInput, TLC, Json, IOUtils
@@ -38,6 +43,7 @@ Why(e) ==
   ELSE IF e.hang # "" THEN "hang"
   ELSE IF ~e.closed \/ EofCount(e.items) # 1 THEN "end-marker"
   ELSE IF ~e.kept THEN "retention"
+  ELSE IF e.stopRets > 1 THEN "close-not-stopping"
   ELSE IF ~e.early /\ ~e.ambig /\ Constrained({Init0}, Wire(e.in)) /\ ~Accepts(e) THEN "timing"
   ELSE "ok"
 
@@ -49,7 +55,7 @@ Next ==
         LET w == Why(e) IN
         IF w = "ok" THEN TRUE
         ELSE IF w = "drift" THEN PrintT("DRIFT " \o ToJson([scn |-> e.scn, what |-> e.drift]))
-        ELSE PrintT("REJECT " \o ToJson([scn |-> e.scn, line |-> l, why |-> w, detail |-> e.panic \o e.hang,
+        ELSE PrintT("REJECT " \o ToJson([scn |-> e.scn, line |-> l, why |-> w, detail |-> e.panic \o e.hang, rets |-> e.stopRets,
                       known |-> IF w = "timing" /\ AcceptsK(e) THEN "spurious-ESC-backslash:after-empty-osc" ELSE "",
                       at |-> IF w = "timing" THEN Diverge(Explode(e.items, <<>>), Run(Init0, Wire(e.in)).out, "") ELSE <<>>]))
      ELSE TRUE
